@@ -152,6 +152,13 @@ const SpinLimit = 1_000_000
 
 var loopTicks atomic.Int64
 
+// Atomic passes the result of an atomic operation through and is a scheduling point: between two
+// atomic operations of one task any other task may run (as on real hardware).
+func Atomic[T any](site int, v T) T {
+	Yield(site, "atomic")
+	return v
+}
+
 // LoopTick is inserted by the instrumenter at the top of every for-loop body of the library.
 func LoopTick() {
 	if loopTicks.Add(1) <= SpinLimit {
